@@ -1,8 +1,10 @@
 (* Props/C17.v — property theorems only.  Models: Gen/date_time.v (regenerated
    from /repo/src/pycel/lib/date_time.py every run) over Lib/PyDate.v (CPython's
    calendar algorithms, transcribed); Model/DayTime.v (binary64, hand-written). *)
-From Coq Require Import ZArith List.
+From Coq Require Import ZArith List Bool.
 From PV Require Import Lib.Py Lib.PyDate Proofs.C17Cal Proofs.C17Base Proofs.C17 Model.DayTime.
+From PV Require Import Proofs.C17Carry Proofs.C17Months Proofs.C17Total Proofs.C17Yearfrac Model.DateFuncs.
+From PV Require Gen.excelutil.
 From PV Require Proofs.C17Sweep.All.
 From PV Require Gen.date_time.
 Import ListNotations.
@@ -61,3 +63,167 @@ Print Assumptions C17_month_carry.
 Theorem C17_time : forall s, 0 <= s < 86400 -> pack (hms s) = s.
 Proof. exact daytime. Qed.
 Print Assumptions C17_time.
+
+(* DAY CARRY (d >= 1; for d <= 0 the model refutes it: Refuted/C17_day_borrow.v).
+   For ANY integer month m whose normalised month (nyear y m, nmonth m) =
+   (y + (m-1) div 12, (m-1) mod 12 + 1) is 1900-03 or later, and any day
+   1 <= d <= 25000 (normalize_year recurses once per month carried; the model's
+   recursion budget is 900 calls), DATE(y, m, d) = DATE(y, m, 1) + d - 1 whenever
+   that is a serial number of the calendar. *)
+Theorem C17_day_carry : forall y m d, 1900 <= y <= 9999 ->
+  1900 <= nyear y m -> (nyear y m = 1900 -> 3 <= nmonth m) ->
+  1 <= d <= 25000 -> ymd2ord (nyear y m) (nmonth m) 1 - 693594 + d - 1 <= 2958465 ->
+  exists n1, 60 < n1
+    /\ date_time.f_date (VInt y) (VInt m) (VInt 1) = Ok (VInt n1)
+    /\ date_time.f_date (VInt y) (VInt m) (VInt d) = Ok (VInt (n1 + d - 1)).
+Proof. exact day_carry. Qed.
+Print Assumptions C17_day_carry.
+
+(* the calendar model: ord2ymd inverts ymd2ord on every valid date of the Excel range *)
+Theorem C17_ord2ymd_inverse : forall y m d, 1 <= m <= 12 -> 1 <= d <= days_in_month y m ->
+  61 <= ymd2ord y m d - 693594 <= 2958465 -> ord2ymd (ymd2ord y m d) = (y, m, d).
+Proof. exact ord2ymd_inv. Qed.
+Print Assumptions C17_ord2ymd_inverse.
+
+(* EOMONTH.  n a serial day after the phantom leap day, (y, m, d) its date, k ANY
+   integer shift; the target month (y2, m2) = k months after (y, m) lies in
+   1900-03 .. 9999-11 (for 9999-12 the model answers #NUM!, known finding
+   C17-eomonth-last-month: Refuted/C17_eomonth_last_month.v).  Then EOMONTH(n, k)
+   is the serial number of the last day of (y2, m2): its YEAR/MONTH are y2/m2, its
+   DAY is the length of that month and the next serial day has DAY = 1. *)
+Theorem C17_eomonth : forall n k y m d, 60 < n <= 2958465 -> ord2ymd (693594 + n) = (y, m, d) ->
+  let y2 := nyear y (m + k) in let m2 := nmonth (m + k) in
+  1900 <= y2 <= 9999 -> (y2 = 1900 -> 3 <= m2) -> (y2 = 9999 -> m2 <= 11) ->
+  exists e, date_time.f_eomonth (VInt n) (VInt k) = Ok (VInt e)
+    /\ e = ymd2ord y2 m2 (days_in_month y2 m2) - 693594 /\ 60 < e < 2958465
+    /\ date_time.f_year (VInt e) = Ok (VInt y2) /\ date_time.f_month (VInt e) = Ok (VInt m2)
+    /\ date_time.f_day (VInt e) = Ok (VInt (days_in_month y2 m2))
+    /\ date_time.f_day (VInt (e + 1)) = Ok (VInt 1).
+Proof. exact eomonth_spec. Qed.
+Print Assumptions C17_eomonth.
+
+(* EDATE shifts by whole months and clips the day to the length of the target
+   month (target month in 1900-03 .. 9999-12, any integer shift k) *)
+Theorem C17_edate : forall n k y m d, 60 < n <= 2958465 -> ord2ymd (693594 + n) = (y, m, d) ->
+  let y2 := nyear y (m + k) in let m2 := nmonth (m + k) in
+  1900 <= y2 <= 9999 -> (y2 = 1900 -> 3 <= m2) ->
+  let dd := Z.min d (days_in_month y2 m2) in
+  exists e, date_time.f_edate (VInt n) (VInt k) = Ok (VInt e)
+    /\ e = ymd2ord y2 m2 dd - 693594 /\ 60 < e <= 2958465
+    /\ date_time.f_year (VInt e) = Ok (VInt y2) /\ date_time.f_month (VInt e) = Ok (VInt m2)
+    /\ date_time.f_day (VInt e) = Ok (VInt dd).
+Proof. exact edate_spec. Qed.
+Print Assumptions C17_edate.
+
+Theorem C17_edate_zero : forall n, 60 < n <= 2958465 ->
+  date_time.f_edate (VInt n) (VInt 0) = Ok (VInt n).
+Proof. exact edate_zero. Qed.
+Print Assumptions C17_edate_zero.
+
+(* EDATE(EDATE(n, a), b) = EDATE(n, a + b) when the day is never clipped (DAY(n) <= 28) *)
+Theorem C17_edate_compose : forall n a b y m d, 60 < n <= 2958465 ->
+  ord2ymd (693594 + n) = (y, m, d) -> d <= 28 ->
+  1900 <= nyear y (m + a) <= 9999 -> (nyear y (m + a) = 1900 -> 3 <= nmonth (m + a)) ->
+  1900 <= nyear y (m + a + b) <= 9999 -> (nyear y (m + a + b) = 1900 -> 3 <= nmonth (m + a + b)) ->
+  exists n1 n2, date_time.f_edate (VInt n) (VInt a) = Ok (VInt n1)
+    /\ date_time.f_edate (VInt n1) (VInt b) = Ok (VInt n2)
+    /\ date_time.f_edate (VInt n) (VInt (a + b)) = Ok (VInt n2).
+Proof. exact edate_compose. Qed.
+Print Assumptions C17_edate_compose.
+
+(* NEVER AN EXCEPTION (partial: bounded month/day/shift; beyond the bounds the
+   model does raise — TypeError from is_leap_year(year <= 0), or the recursion
+   budget — Refuted/C17_date_exceptions.v).  [date_value v]: v is #NUM!, the float
+   60.0 (1900-02-29) or a serial day 0..2958465.  Through the decorator wrappers
+   (Model/DateFuncs.v X_date, X_edate, X_eomonth):
+   DATE of ANY integer year, any month >= -11000 and any day in -25000..25000, and
+   EDATE / EOMONTH of ANY integer serial number and any shift >= -10000, return a value. *)
+Theorem C17_date_total_partial :
+  (forall y m d, -11000 <= m -> -25000 <= d <= 25000 ->
+     exists v, X_date [VInt y; VInt m; VInt d] = Ok v /\ date_value v)
+  /\ (forall n k, -10000 <= k ->
+        (exists v, X_eomonth [VInt n; VInt k] = Ok v /\ num_or_int v)
+        /\ (exists v, X_edate [VInt n; VInt k] = Ok v /\ date_value v)).
+Proof. exact wrapped_total. Qed.
+Print Assumptions C17_date_total_partial.
+
+(* for a day 1..28 DATE is decided for ALL integer years and months: TypeError
+   exactly when the normalised month is February of a normalised year <= 0
+   (yadj: years below 1900 are read as 1900 + year), else a value *)
+Theorem C17_date_small_day : forall y m d, 1 <= d <= 28 ->
+  if (0 <=? y) && (y <=? 9999) && (nmonth m =? 2) && (nyear (yadj y) m <=? 0)
+  then date_time.f_date (VInt y) (VInt m) (VInt d) = Raise TypeError
+  else exists v, date_time.f_date (VInt y) (VInt m) (VInt d) = Ok v /\ date_value v.
+Proof. exact date_small_day. Qed.
+Print Assumptions C17_date_small_day.
+
+(* YEAR / MONTH / DAY / WEEKDAY (wrapped) of EVERY integer: numbers of the right
+   range on 0..2958465, #NUM! everywhere else *)
+Theorem C17_serial_total : forall n,
+  (0 <= n <= 2958465 ->
+     exists y m d w, X_year [VInt n] = Ok (VInt y) /\ X_month [VInt n] = Ok (VInt m)
+       /\ X_day [VInt n] = Ok (VInt d) /\ X_weekday [VInt n] = Ok (VInt w)
+       /\ 1900 <= y <= 9999 /\ 1 <= m <= 12 /\ 0 <= d <= 31 /\ 1 <= w <= 7)
+  /\ (~ 0 <= n <= 2958465 ->
+     X_year [VInt n] = Ok excelutil.c_NUM_ERROR /\ X_month [VInt n] = Ok excelutil.c_NUM_ERROR
+     /\ X_day [VInt n] = Ok excelutil.c_NUM_ERROR /\ X_weekday [VInt n] = Ok excelutil.c_NUM_ERROR).
+Proof. exact serial_total. Qed.
+Print Assumptions C17_serial_total.
+
+(* YEARFRAC is symmetric in its dates: all integer dates, every basis value *)
+Theorem C17_yearfrac_symmetric : forall a b basis,
+  date_time.f_yearfrac (VInt a) (VInt b) basis = date_time.f_yearfrac (VInt b) (VInt a) basis.
+Proof. exact yearfrac_symmetric. Qed.
+Print Assumptions C17_yearfrac_symmetric.
+
+(* ... and through the decorator wrapper, with an integer basis or without one *)
+Theorem C17_yearfrac_wrapped_symmetric : forall a b bs,
+  X_yearfrac [VInt a; VInt b; VInt bs] = X_yearfrac [VInt b; VInt a; VInt bs]
+  /\ X_yearfrac [VInt a; VInt b] = X_yearfrac [VInt b; VInt a].
+Proof. exact yearfrac_wrapped_symmetric. Qed.
+Print Assumptions C17_yearfrac_wrapped_symmetric.
+
+(* MONTH CARRY on the generated DATE: 12 months are one year, for ALL integer
+   months, days and k (both years in 1900..9999), whatever the result is *)
+Theorem C17_date_month_carry : forall y m d k, 1900 <= y <= 9999 -> 1900 <= y + k <= 9999 ->
+  date_time.f_date (VInt y) (VInt (m + 12 * k)) (VInt d)
+  = date_time.f_date (VInt (y + k)) (VInt m) (VInt d).
+Proof. exact date_month_carry. Qed.
+Print Assumptions C17_date_month_carry.
+
+(* OUT-OF-RANGE RESULTS ARE #NUM!: the forward day carry past 9999-12-31 ... *)
+Theorem C17_day_carry_overflow : forall y m d, 1900 <= y <= 9999 ->
+  1900 <= nyear y m -> (nyear y m = 1900 -> 3 <= nmonth m) ->
+  1 <= d <= 25000 -> 2958465 < ymd2ord (nyear y m) (nmonth m) 1 - 693594 + d - 1 ->
+  date_time.f_date (VInt y) (VInt m) (VInt d) = Ok excelutil.c_NUM_ERROR.
+Proof. exact day_carry_overflow. Qed.
+Print Assumptions C17_day_carry_overflow.
+
+(* ... and EDATE / EOMONTH whose target month lies before 1899 or after 9999 (y3, m3:
+   the month after the target, whose first day EOMONTH computes; the guard "February
+   only of a positive year" excludes the TypeError of Refuted/C17_date_exceptions.v) *)
+Theorem C17_months_out_of_calendar : forall n k y m d, 60 < n <= 2958465 ->
+  ord2ymd (693594 + n) = (y, m, d) ->
+  (let y2 := nyear y (m + k) in let m2 := nmonth (m + k) in
+   (m2 = 2 -> 0 < y2) -> y2 < 1899 \/ 10000 <= y2 ->
+   date_time.f_edate (VInt n) (VInt k) = Ok excelutil.c_NUM_ERROR)
+  /\ (let y3 := nyear y (m + k + 1) in let m3 := nmonth (m + k + 1) in
+      (m3 = 2 -> 0 < y3) -> y3 < 1899 \/ 10000 <= y3 ->
+      date_time.f_eomonth (VInt n) (VInt k) = Ok excelutil.c_NUM_ERROR).
+Proof. exact months_out_of_calendar. Qed.
+Print Assumptions C17_months_out_of_calendar.
+
+(* THE DAY BORROW AS THE CODE COMPUTES IT (known finding C17-day-borrow, all
+   inputs with a one-month borrow): for a month (y, m) from 1900-04 on and
+   -27 <= d <= 0, DATE(y, m, d) is off from DATE(y, m, 1) + d - 1 by exactly
+   days_in_month(m) - days_in_month(m - 1): correct only when the two months are
+   equally long *)
+Theorem C17_day_borrow_defect : forall y m d, 1900 <= y <= 9999 -> 1 <= m <= 12 ->
+  (y = 1900 -> 4 <= m) -> -27 <= d <= 0 ->
+  let yp := nyear y (m - 1) in let mp := nmonth (m - 1) in
+  exists n1, 60 < n1
+    /\ date_time.f_date (VInt y) (VInt m) (VInt 1) = Ok (VInt n1)
+    /\ date_time.f_date (VInt y) (VInt m) (VInt d)
+       = Ok (VInt (n1 + d - 1 + (days_in_month y m - days_in_month yp mp))).
+Proof. exact day_borrow_defect. Qed.
+Print Assumptions C17_day_borrow_defect.
